@@ -450,8 +450,9 @@ pub fn gen(rng: &mut vq_util::Rng, v: &View, step: usize, small: bool) -> Op {
         75..=94 => near(rng, anchor),
         _ => consumed.saturating_sub(rng.range(1, 5000)),
     };
-    if small && off > end + 2 * sz {
-        off = near(rng, (end / sz + 1) * sz);
+    if small && off > end + 300 {
+        // Miri workload: stay close to the frontier so that data actually flows, edges via the initial skip
+        off = if rng.chance(1, 2) { end + rng.range(0, 40) } else { near(rng, (end / sz + 1) * sz) };
     }
     off = off.min(MAXV);
     let to_edge = (off / sz + 1) * sz - off;
@@ -468,10 +469,7 @@ pub fn gen(rng: &mut vq_util::Rng, v: &View, step: usize, small: bool) -> Op {
         _ => rng.range(20000, 70000),
     };
     if small && len > cap {
-        len = near(rng, to_edge).min(cap);
-        if to_edge > cap {
-            off = (off + to_edge).saturating_sub(rng.range(0, cap)).min(MAXV); // keep the write on the edge
-        }
+        len = if to_edge <= cap { near(rng, to_edge) } else { rng.range(1, cap) };
     }
     let mut is_fin = rng.chance(1, 8);
     if let Some(f) = fin {
